@@ -35,6 +35,21 @@ CLAIMED = {
  "C09": dict(level="exploration", tech=TECH + "one injected failure per run (cmd-exit x3, cmd-signal, cmd-omit, bad-input x2) on a tape-chosen task while siblings run",
      text="Exit status, absence of the completion marker, absence of the victim's outputs at final paths and absence of start events of transitive dependants are checked for each sampled (workflow, victim, failure kind, schedule).",
      note="Failure kinds are those the statement lists.", ref="9 C09"),
+ "C10": dict(level="exploration", tech=TECH + "audit files parsed strictly and compared recursively with the lineage tree of the independent reference evaluation; Command compared with the words the simulated shell actually received",
+     text="For every finalized output of every sampled (workflow, schedule) the audit JSON is compared field by field, recursively to the source files, with the reference lineage; timing sanity checked on the simulated clock.",
+     note="Ids and absolute times excluded. Tags: inherited tags must be present, extras only from tagging components (a sibling consumer may legally see or not see a tag attached concurrently). Forward-only simulated clock.", ref="9 C10"),
+ "C11": dict(level="fault_enumeration", tech=TECH + "histories that split one workflow over several incarnations: RunTo-then-Run, kill at EVERY crash state of the sampled schedule + cleanup + re-run, delete-outputs + re-run; nested ancestor records compared byte-for-byte (as JSON values) with the audit files on disk before the resume",
+     text="Per sampled workflow/schedule every crash state is a split point; after each resumed history all audit files equal the reference lineage and embed the pre-existing ancestor records unchanged, which exercises scipipe's own write/read/embed/write path.",
+     note="Crash states whose re-run does not complete are C03's business (F-C03-1) and skipped here. No tagging components in this profile (they rewrite records on disk).", ref="9 C11"),
+ "C17": dict(level="exploration", tech=TECH + "simulated FIFOs (blocking open on both ends, bounded pipe buffer with back-pressure, EOF at last close, EPIPE) under the seeded scheduler; payload vs pipe capacity and producer/consumer durations drawn from the tape; history run / run-again",
+     text="Byte-exact delivery, absence of file and FIFO at the return instant, audit link and the second run are checked per sampled schedule; two known findings (F-C17-1 audit link depends on bookkeeping order, F-C17-2 second run never terminates) are matched structurally and reported as KNOWN-FINDING.",
+     note="FIFO semantics are a stub (validated against POSIX behaviour by reading, not by execution). One consumer per streaming port, slots >= 2n, as the statement requires. F-C17-2 masks the second-run clause entirely.", ref="9 C17"),
+ "C18": dict(level="exploration", tech=TECH + "sub-stream lengths 0..beyond buffer (bufsize 1..3 and, in the thorough tier, 130/140 items against the default 128), separators, upstream timing from the tape; oracle on the argv the simulated shell received, resolved from the task cwd",
+     text="Exactly-one task, member order/completeness/separator and audit Upstream keys are checked for each sampled (length, separator, bufsize, schedule).",
+     note="Placeholder modifiers on joined ports are not generated (a basename-modified member is by construction not a path to the file).", ref="9 C18"),
+ "C19": dict(level="exploration", tech=TECH + "each bundled component in a small generated workflow; map-iteration order (the combinators' head port), sender-goroutine interleavings and lock-step reads decided by the tape; oracles = Cartesian product / predicate filter / line conservation / arrival-order concatenation / independent glob",
+     text="Schedule- and map-order-sensitive behaviour of the components is explored per sampled schedule; their input-space claims (all file lengths x split sizes, all glob patterns) are only sampled.",
+     note="Ports of a combinator that share one upstream are limited to stream length <= bufsize, as the statement says. Splitter inputs end with a newline.", ref="9 C19"),
  "C16": dict(level="exploration", tech=TECH + "generated graphs with one port left unconnected; RunTo/RunToRegex/RunToProcs with tape-chosen targets; oracle = reference closure vs execution trace",
      text="Refusal (exit!=0, empty trace) for unconnected ports and exact closure execution for RunTo are checked on sampled graphs and schedules.",
      note="One genuine defect (F-C16-1, fatal recursion with FromStr feeders) was repaired.", ref="9 C16"),
